@@ -46,9 +46,24 @@ Proofs/RespFacts.vos Proofs/RespFacts.vok Proofs/RespFacts.required_vos: Proofs/
 Proofs/StringsFacts.vo Proofs/StringsFacts.glob Proofs/StringsFacts.v.beautified Proofs/StringsFacts.required_vo: Proofs/StringsFacts.v Base/Bytes.vo Model/Resp.vo Model/Types.vo Model/Glob.vo Model/Strings.vo Proofs/BytesFacts.vo
 Proofs/StringsFacts.vio: Proofs/StringsFacts.v Base/Bytes.vio Model/Resp.vio Model/Types.vio Model/Glob.vio Model/Strings.vio Proofs/BytesFacts.vio
 Proofs/StringsFacts.vos Proofs/StringsFacts.vok Proofs/StringsFacts.required_vos: Proofs/StringsFacts.v Base/Bytes.vos Model/Resp.vos Model/Types.vos Model/Glob.vos Model/Strings.vos Proofs/BytesFacts.vos
+Proofs/ServerFacts.vo Proofs/ServerFacts.glob Proofs/ServerFacts.v.beautified Proofs/ServerFacts.required_vo: Proofs/ServerFacts.v Base/Bytes.vo Generated.vo Model/Resp.vo Model/Types.vo Model/Glob.vo Model/Strings.vo Model/Lists.vo Model/ZSets.vo Model/Streams.vo Model/Server.vo Proofs/BytesFacts.vo Proofs/StringsFacts.vo
+Proofs/ServerFacts.vio: Proofs/ServerFacts.v Base/Bytes.vio Generated.vio Model/Resp.vio Model/Types.vio Model/Glob.vio Model/Strings.vio Model/Lists.vio Model/ZSets.vio Model/Streams.vio Model/Server.vio Proofs/BytesFacts.vio Proofs/StringsFacts.vio
+Proofs/ServerFacts.vos Proofs/ServerFacts.vok Proofs/ServerFacts.required_vos: Proofs/ServerFacts.v Base/Bytes.vos Generated.vos Model/Resp.vos Model/Types.vos Model/Glob.vos Model/Strings.vos Model/Lists.vos Model/ZSets.vos Model/Streams.vos Model/Server.vos Proofs/BytesFacts.vos Proofs/StringsFacts.vos
 Props/C20.vo Props/C20.glob Props/C20.v.beautified Props/C20.required_vo: Props/C20.v Base/Bytes.vo Model/Resp.vo Proofs/BytesFacts.vo Proofs/RespFacts.vo
 Props/C20.vio: Props/C20.v Base/Bytes.vio Model/Resp.vio Proofs/BytesFacts.vio Proofs/RespFacts.vio
 Props/C20.vos Props/C20.vok Props/C20.required_vos: Props/C20.v Base/Bytes.vos Model/Resp.vos Proofs/BytesFacts.vos Proofs/RespFacts.vos
 Props/C01.vo Props/C01.glob Props/C01.v.beautified Props/C01.required_vo: Props/C01.v Base/Bytes.vo Model/Resp.vo Model/Types.vo Model/Glob.vo Model/Strings.vo Proofs/BytesFacts.vo Proofs/StringsFacts.vo
 Props/C01.vio: Props/C01.v Base/Bytes.vio Model/Resp.vio Model/Types.vio Model/Glob.vio Model/Strings.vio Proofs/BytesFacts.vio Proofs/StringsFacts.vio
 Props/C01.vos Props/C01.vok Props/C01.required_vos: Props/C01.v Base/Bytes.vos Model/Resp.vos Model/Types.vos Model/Glob.vos Model/Strings.vos Proofs/BytesFacts.vos Proofs/StringsFacts.vos
+Props/C17.vo Props/C17.glob Props/C17.v.beautified Props/C17.required_vo: Props/C17.v Base/Bytes.vo Generated.vo Model/Resp.vo Model/Types.vo Model/Server.vo Proofs/ServerFacts.vo
+Props/C17.vio: Props/C17.v Base/Bytes.vio Generated.vio Model/Resp.vio Model/Types.vio Model/Server.vio Proofs/ServerFacts.vio
+Props/C17.vos Props/C17.vok Props/C17.required_vos: Props/C17.v Base/Bytes.vos Generated.vos Model/Resp.vos Model/Types.vos Model/Server.vos Proofs/ServerFacts.vos
+Props/C18.vo Props/C18.glob Props/C18.v.beautified Props/C18.required_vo: Props/C18.v Base/Bytes.vo Generated.vo Model/Resp.vo Model/Types.vo Model/Server.vo Proofs/ServerFacts.vo
+Props/C18.vio: Props/C18.v Base/Bytes.vio Generated.vio Model/Resp.vio Model/Types.vio Model/Server.vio Proofs/ServerFacts.vio
+Props/C18.vos Props/C18.vok Props/C18.required_vos: Props/C18.v Base/Bytes.vos Generated.vos Model/Resp.vos Model/Types.vos Model/Server.vos Proofs/ServerFacts.vos
+Props/C07.vo Props/C07.glob Props/C07.v.beautified Props/C07.required_vo: Props/C07.v Base/Bytes.vo Generated.vo Model/Resp.vo Model/Types.vo Model/Server.vo Proofs/ServerFacts.vo
+Props/C07.vio: Props/C07.v Base/Bytes.vio Generated.vio Model/Resp.vio Model/Types.vio Model/Server.vio Proofs/ServerFacts.vio
+Props/C07.vos Props/C07.vok Props/C07.required_vos: Props/C07.v Base/Bytes.vos Generated.vos Model/Resp.vos Model/Types.vos Model/Server.vos Proofs/ServerFacts.vos
+Props/C08.vo Props/C08.glob Props/C08.v.beautified Props/C08.required_vo: Props/C08.v Base/Bytes.vo Generated.vo Model/Resp.vo Model/Types.vo Model/Server.vo Proofs/ServerFacts.vo
+Props/C08.vio: Props/C08.v Base/Bytes.vio Generated.vio Model/Resp.vio Model/Types.vio Model/Server.vio Proofs/ServerFacts.vio
+Props/C08.vos Props/C08.vok Props/C08.required_vos: Props/C08.v Base/Bytes.vos Generated.vos Model/Resp.vos Model/Types.vos Model/Server.vos Proofs/ServerFacts.vos
